@@ -7,6 +7,7 @@ CONSTANTS
   Extras = TRUE
   Emit = FALSE
   SharedTokenCache = FALSE
+  StaleSnapshot = FALSE
 SPECIFICATION TSpec
 INVARIANT IdsUnique
 INVARIANT TLayoutsOK
